@@ -1,3 +1,4 @@
+import io
 from contextlib import contextmanager
 from typing import Optional, ContextManager, Iterator, TextIO
 
@@ -27,7 +28,7 @@ class ContentsOfStr(ContentsWithCachedPathFromWriteToBase):
     @property
     @contextmanager
     def as_lines(self) -> ContextManager[Iterator[str]]:
-        yield iter(self._contents.splitlines(keepends=True))
+        yield iter(io.StringIO(self._contents).readlines())
 
     def write_to(self, output: TextIO):
         output.write(self._contents)
